@@ -14,7 +14,7 @@ from typing import List, Set
 from fsa.escape import Escape
 from fsa.match import dotted, is_call, is_const, method_call, root_name
 from fsa.effects import MUTATORS
-from fsa.source import iter_own_nodes, text
+from fsa.source import Unsupported, iter_own_nodes, text
 from rules.common import Fn, module_bound_names
 from rules.solver_common import fsic_hierarchy
 from rules import c01
@@ -128,7 +128,16 @@ def r2_comments_blanks(R) -> None:
         R.check(any(x.endswith('.strip()') for x in g), q, 'skip-blank', 'a statement that is blank after stripping is skipped, not yielded',
                 'the yield is not guarded by a non-blank test', where=f.where(ys[0]))
     # the buffer is reset after each complete statement
-    resets = [n for n in f.assigns_to('buffer') if lp.id in n.loops and text(n.ast.value) == '[]']
+    # (the buffer is the list every line is appended to)
+    tv = text(lp.ast.target)
+    bufs = {x.func.value.id for n in f.cfg.nodes if lp.id in n.loops and n.ast is not None and n.kind == 'stmt' for x in ast.walk(n.ast)
+            if method_call(x, 'append') and isinstance(x.func.value, ast.Name) and len(x.args) == 1 and text(x.args[0]) == tv}
+    if len(bufs) != 1:
+        raise Unsupported(f'{q}: the line buffer is not identified (lists the current line is appended to: {sorted(bufs)})')
+    buf = sorted(bufs)[0]
+    resets = [n for n in f.assigns_to(buf) if lp.id in n.loops and (text(n.ast.value) in ('[]', 'list()'))]
+    resets += [n for n in f.cfg.nodes if lp.id in n.loops and n.ast is not None and n.kind == 'stmt' and
+               (any(method_call(x, 'clear') and text(x.func.value) == buf for x in ast.walk(n.ast)) or text(n.ast) in (f'del {buf}[:]', f'{buf}[:] = []'))]
     R.check(bool(resets), q, 'buffer-reset', 'the buffer restarts after each complete statement', 'the buffer is not reset inside the loop', where=f.where(lp))
 
 
